@@ -8,6 +8,7 @@ import (
 	"time"
 
 	"p9verif/evid"
+	"p9verif/memfs"
 	"p9verif/mockfs"
 	"p9verif/peers"
 	"p9verif/refcodec"
@@ -370,6 +371,124 @@ func runCoClientCase(c coCase, st *coStats) *fail {
 	return nil
 }
 
+// --- overlapping reads: the data of a read reply is exactly what the backend produced for it ---
+
+type overlapCase struct {
+	TailReads int  `json:"tail_reads"` // reads that end at the end of the file (backend returns data + io.EOF) before the overlap
+	HoldAfter bool `json:"hold_after"` // hold the first read after the backend filled the buffer (else on entry)
+	SizeA     int  `json:"size_a"`
+	SizeB     int  `json:"size_b"`
+	Conns     int  `json:"conns"`
+}
+
+func runOverlapCase(c overlapCase) *fail {
+	fs := memfs.New(memfs.Options{NativeWalkGetAttr: true, TailEOF: true})
+	fa, _ := fs.Tree.Create(fs.Tree.Root, "a", 0o644, 0, 0)
+	fb, _ := fs.Tree.Create(fs.Tree.Root, "b", 0o644, 0, 0)
+	contentA, contentB := bytes.Repeat([]byte{0xA1, 0xA2, 0xA3}, 3000), bytes.Repeat([]byte{0xB4, 0xB5}, 4000)
+	fa.WriteAt(contentA, 0)
+	fb.WriteAt(contentB, 0)
+	srv := p9.NewServer(fs)
+	s := peers.Start(srv)
+	defer s.Close(10 * time.Second)
+	s2 := s
+	if c.Conns > 1 {
+		s2 = peers.Start(srv)
+		defer s2.Close(10 * time.Second)
+	}
+	desc := fmt.Sprintf("%+v", c)
+	hA := 0
+	for _, ss := range []*peers.Session{s, s2} {
+		if _, err := ss.Version(8192, "9P2000.L.Google.7"); err != nil {
+			return failf("harness-version", "HARNESS-ERROR %v", err)
+		}
+		before := fs.Seq()
+		for j, m := range []*refcodec.Msg{tAttach(0, nofid, ""), tWalk(0, 1, "a"), tOpen(1, 0), tWalk(0, 2, "b"), tOpen(2, 0)} {
+			r, err := ss.Call(withTag(cloneMsg(m), uint16(1+j)))
+			if err != nil || r.Type == refcodec.Rlerror {
+				return failf("harness-setup", "HARNESS-ERROR %s: %v %v", m, r, err)
+			}
+		}
+		if ss == s {
+			for _, cl := range fs.LogSince(before) {
+				if cl.Op == "Open" && cl.Path == "/a" {
+					hA = cl.Handle
+				}
+			}
+		}
+		if s == s2 {
+			break
+		}
+	}
+	read := func(ss *peers.Session, fid uint64, off, count int, tag uint16, content []byte) *fail {
+		raw, err := ss.RPC(refcodec.Encode(withTag(tRead(fid, uint64(off), uint64(count)), tag)))
+		if err != nil {
+			return failf("no-reply:read", "%v (%s)", err, desc)
+		}
+		rep, derr := refcodec.DecodeStrict(raw)
+		if derr != nil || rep.Type != refcodec.Rread {
+			return failf("carry-over:reply:Rread", "read of %d bytes at %d: reply %x (%v) (%s)", count, off, raw[:min(len(raw), 40)], derr, desc)
+		}
+		want := content[min(off, len(content)):min(off+count, len(content))]
+		if !bytes.Equal(rep.Bytes("data"), want) {
+			return failf("carry-over:read-data", "read of %d bytes at offset %d returned %d bytes %x…, the backend produced %d bytes %x… (%s)", count, off, len(rep.Bytes("data")), rep.Bytes("data")[:min(len(rep.Bytes("data")), 12)], len(want), want[:min(len(want), 12)], desc)
+		}
+		return nil
+	}
+	// reads that end at the end of the file: the backend returns data together with io.EOF
+	for i := 0; i < c.TailReads; i++ {
+		if f := read(s, 1, len(contentA)-100-i, 500, uint16(20+i), contentA); f != nil {
+			return f
+		}
+	}
+	// first read on file a is held inside the backend ...
+	gate := memfs.NewGate(func(cl *memfs.Call) bool { return cl.Op == "ReadAt" && cl.Handle == hA })
+	gate.After = c.HoldAfter
+	fs.AddGate(gate)
+	defer gate.Release()
+	s.Send(refcodec.Encode(withTag(tRead(1, 0, uint64(c.SizeA)), 100)))
+	select {
+	case <-gate.Entered:
+	case <-time.After(20 * time.Second):
+		return failf("harness-gate", "HARNESS-ERROR the first read never reached the backend (%s)", desc)
+	}
+	// ... while a second read (file b) is served completely, several times
+	for k := 0; k < 3; k++ {
+		raw, err := s2.RPC(refcodec.Encode(withTag(tRead(2, uint64(k*10), uint64(c.SizeB)), uint16(101+k))))
+		if err != nil {
+			return failf("no-reply:read", "second read: %v (%s)", err, desc)
+		}
+		rep, derr := refcodec.DecodeStrict(raw)
+		if derr != nil || rep.Type != refcodec.Rread {
+			return failf("carry-over:reply:Rread", "second read: reply %x (%v) (%s)", raw[:min(len(raw), 40)], derr, desc)
+		}
+		want := contentB[k*10 : min(k*10+c.SizeB, len(contentB))]
+		if !bytes.Equal(rep.Bytes("data"), want) {
+			return failf("carry-over:read-data", "a read of file b served while a read of file a was inside the backend returned %x…, the backend produced %x… (%s)", rep.Bytes("data")[:min(len(rep.Bytes("data")), 12)], want[:min(len(want), 12)], desc)
+		}
+	}
+	gate.Release()
+	raw, err := s.Recv(20 * time.Second)
+	if err != nil {
+		return failf("no-reply:read", "first read after release: %v (%s)", err, desc)
+	}
+	rep, derr := refcodec.DecodeStrict(raw)
+	if derr != nil || rep.Type != refcodec.Rread {
+		return failf("carry-over:reply:Rread", "first read: reply %x (%v) (%s)", raw[:min(len(raw), 40)], derr, desc)
+	}
+	want := contentA[:min(c.SizeA, len(contentA))]
+	if !bytes.Equal(rep.Bytes("data"), want) {
+		return failf("carry-over:read-data", "the read of file a that was inside the backend while other reads were served returned %x…, the backend produced %x… (%s)", rep.Bytes("data")[:min(len(rep.Bytes("data")), 12)], want[:min(len(want), 12)], desc)
+	}
+	// and ordinary reads afterwards
+	for i := 0; i < 4; i++ {
+		if f := read(s, 1, i*700, 900, uint16(110+i), contentA); f != nil {
+			return f
+		}
+	}
+	return nil
+}
+
 var coKinds = []string{"walk", "walkga", "write", "read", "readdir", "symlink", "xattr", "renameat", "attach"}
 
 func genCoCase(rt *rapid.T) coCase {
@@ -406,6 +525,7 @@ func init() {
 	replayRegistrars = append(replayRegistrars, func() {
 		registerReplay("C18/server", func(c coCase) *fail { return runCoCase(c, nil) })
 		registerReplay("C18/client", func(c coCase) *fail { return runCoClientCase(c, nil) })
+		registerReplay("C18/overlapping-reads", runOverlapCase)
 	})
 }
 
@@ -443,6 +563,18 @@ func TestC18(t *testing.T) {
 			}
 		}
 	}
+	rapidCases(h, "overlapping-reads", env.PerShard(env.Pick(800, 20000)), func(rt *rapid.T) overlapCase {
+		return overlapCase{TailReads: rapid.SampledFrom([]int{0, 1, 3, 8, 64}).Draw(rt, "tail"), HoldAfter: rapid.Bool().Draw(rt, "after"),
+			SizeA: rapid.SampledFrom([]int{1, 100, 1000, 8000}).Draw(rt, "a"), SizeB: rapid.SampledFrom([]int{1, 100, 1000, 8000}).Draw(rt, "b"),
+			Conns: rapid.IntRange(1, 2).Draw(rt, "conns")}
+	}, func(c overlapCase) *fail {
+		f := runOverlapCase(c)
+		h.Case(evid.HashJSON(c), c.TailReads > 0, "overlapping-reads")
+		if h.WantSample("overlapping-reads") {
+			h.Sample("overlapping-reads", c)
+		}
+		return f
+	})
 	rapidCases(h, "server", env.PerShard(env.Pick(8000, 200000)), genCoCase, func(c coCase) *fail {
 		st := &coStats{}
 		f := runCoCase(c, st)
